@@ -24,14 +24,14 @@ func main() {
 			}
 			uri, _ := url.Parse("urn:verif:" + role)
 			tmpl := &x509.Certificate{
-				SerialNumber: big.NewInt(int64(bits)),
-				Subject:      pkix.Name{CommonName: fmt.Sprintf("verif %s %d", role, bits), Organization: []string{"verif"}},
-				NotBefore:    time.Date(1999, 1, 1, 0, 0, 0, 0, time.UTC),
-				NotAfter:     time.Date(2099, 1, 1, 0, 0, 0, 0, time.UTC),
-				KeyUsage:     x509.KeyUsageDigitalSignature | x509.KeyUsageKeyEncipherment | x509.KeyUsageDataEncipherment | x509.KeyUsageContentCommitment | x509.KeyUsageCertSign,
-				ExtKeyUsage:  []x509.ExtKeyUsage{x509.ExtKeyUsageServerAuth, x509.ExtKeyUsageClientAuth},
-				URIs:         []*url.URL{uri},
-				DNSNames:     []string{"srv"},
+				SerialNumber:          big.NewInt(int64(bits)),
+				Subject:               pkix.Name{CommonName: fmt.Sprintf("verif %s %d", role, bits), Organization: []string{"verif"}},
+				NotBefore:             time.Date(1999, 1, 1, 0, 0, 0, 0, time.UTC),
+				NotAfter:              time.Date(2099, 1, 1, 0, 0, 0, 0, time.UTC),
+				KeyUsage:              x509.KeyUsageDigitalSignature | x509.KeyUsageKeyEncipherment | x509.KeyUsageDataEncipherment | x509.KeyUsageContentCommitment | x509.KeyUsageCertSign,
+				ExtKeyUsage:           []x509.ExtKeyUsage{x509.ExtKeyUsageServerAuth, x509.ExtKeyUsageClientAuth},
+				URIs:                  []*url.URL{uri},
+				DNSNames:              []string{"srv"},
 				BasicConstraintsValid: true,
 			}
 			der, err := x509.CreateCertificate(rand.Reader, tmpl, tmpl, &key.PublicKey, key)
